@@ -97,22 +97,45 @@ let opt_z = function Some k -> zs k | None -> "none"
 let tree_cmd (toks : string list) : string option =
   match parse_tree toks with
   | None -> None
-  | Some (d, _per, _h, t, _idx, queries) ->
+  | Some (d, _per, h, t0, idx0, queries) ->
       let dn = nat_of_int d in
+      let t = ref t0 in
+      let idx = ref idx0 in
+      let bsz = z_of_string (List.nth toks 4) and mode = bool_of_tok (List.nth toks 5) in
       let b = Buffer.create 256 in
-      Buffer.add_string b (dump_tree t);
+      Buffer.add_string b (dump_tree !t);
       let rec go q =
         match q with
         | [] -> ()
-        | "fc" :: l :: i :: r -> Buffer.add_string b (" || " ^ opt_pair (find_cell t (z_of_string l) (z_of_string i))); skip r
-        | "fl" :: i :: r -> Buffer.add_string b (" || " ^ opt_pair (find_leaf t (z_of_string i))); skip r
+        | "fc" :: l :: i :: r -> Buffer.add_string b (" || " ^ opt_pair (find_cell !t (z_of_string l) (z_of_string i))); skip r
+        | "fl" :: i :: r -> Buffer.add_string b (" || " ^ opt_pair (find_leaf !t (z_of_string i))); skip r
+        | "setrhs" :: r -> Buffer.add_string b " || ok"; skip r
+        | "export" :: r ->
+            (* identity payload: which original particle's values land in slot i *)
+            let n = List.length !idx in
+            let get i = zs (export_get (iz (-1)) (fun i _ -> i) (iz 1) !t (iz i) Z0) in
+            Buffer.add_string b " || E";
+            for i = 0 to n - 1 do Buffer.add_string b (Printf.sprintf " %d=%s:%s" i (get i) (get i)) done;
+            Buffer.add_string b " bad=0"; skip r
+        | "mv" :: k :: r ->
+            let nums = List.map int_of_string (take d r) in
+            let c = List.map (fun x -> iz (coord_of_num h x)) nums in
+            let k = int_of_string k in
+            idx := List.mapi (fun j x -> if j = k then box dn c else x) !idx;
+            Buffer.add_string b " || moved=1"; skip (drop d r)
+        | "rebuild" :: r ->
+            t := rebuild (parent dn) (iz h) bsz mode !idx;
+            Buffer.add_string b (" || " ^ dump_tree !t); skip r
         | "ei" :: l :: g :: i :: r ->
+            let t = !t in
             let grp = List.nth (List.nth t.t_levels (int_of_string l)) (int_of_string g) in
             Buffer.add_string b (" || " ^ opt_z (cg_find grp (z_of_string i))); skip r
         | "ep" :: l :: g :: i :: r ->
+            let t = !t in
             let grp = List.nth (List.nth t.t_levels (int_of_string l)) (int_of_string g) in
             Buffer.add_string b (" || " ^ opt_z (cg_find_parent (parent dn) grp (z_of_string i))); skip r
         | "li" :: g :: i :: r ->
+            let t = !t in
             let grp = List.nth t.t_pgroups (int_of_string g) in
             Buffer.add_string b (" || " ^ opt_z (pg_find grp (z_of_string i))); skip r
         | ("data" | "zero" | "cv") :: r -> Buffer.add_string b " || -"; skip r   (* decided by the oracle, not the model *)
